@@ -252,8 +252,8 @@ class Pool:
         return ws
 
 
-def merge_summaries(ws, pool):
-    tot = {"runs": pool.partial_runs, "nontrivial": 0, "sim_time": 0, "rechecked": 0, "recheck_mismatch": 0,
+def merge_summaries(ws, pools):
+    tot = {"runs": sum(p.partial_runs for p in pools), "nontrivial": 0, "sim_time": 0, "rechecked": 0, "recheck_mismatch": 0,
            "outcomes": {}, "faults": {}, "probes": {}, "misc": {}, "state_keys": set(), "deadline_hit": False,
            "restarts": 0}
     for w in ws:
@@ -319,13 +319,13 @@ def vclass(res):
     return (res.get("outcome"), res.get("oracle"))
 
 
-def process_candidates(prop, exe, tier, candidates, log):
-    """candidates: list of (seed_hex, plan, first_result). Gates, minimises,
+def process_candidates(prop, tier, candidates, log):
+    """candidates: list of (seed_hex, plan, first_result, exe). Gates, minimises,
     writes replay files. Returns (violations, known_hits, infra_messages)."""
     known = load_known(prop)
     violations, known_hits, infra = [], [], []
     seen_classes = {}
-    for seed_hex, plan, first in candidates:
+    for seed_hex, plan, first, exe in candidates:
         res1, err1 = run_plan(exe, plan)
         if res1.get("outcome") == "OK":
             infra.append("seed %s: %s/%s seen in the batch did not reproduce in a fresh process"
@@ -346,7 +346,7 @@ def process_candidates(prop, exe, tier, candidates, log):
             continue
         seen_classes[cls] = seen_classes.get(cls, 0) + 1
 
-        def test(candidate):
+        def test(candidate, exe=exe, cls=cls):
             r, _ = run_plan(exe, candidate)
             return vclass(r) == cls
         # thread simulations: continue with the schedule that was actually
@@ -364,7 +364,7 @@ def process_candidates(prop, exe, tier, candidates, log):
         _, trace_text = run_plan(exe, small, trace=True)
         os.makedirs(REPLAYS, exist_ok=True)
         rpath = os.path.join(REPLAYS, "%s-%s.json" % (prop, seed_hex))
-        replay = {"property": prop, "seed": seed_hex, "tier": tier, "plan": small,
+        replay = {"property": prop, "target": os.path.basename(exe), "seed": seed_hex, "tier": tier, "plan": small,
                   "expect": {"outcome": resm.get("outcome"), "oracle": resm.get("oracle"), "hash": resm.get("hash")},
                   "detail": resm.get("detail"), "original_plan_ops": plan_size(plan), "minimised_plan_ops": plan_size(small),
                   "minimiser_runs": tries, "repo": repo_state(),
@@ -400,24 +400,36 @@ def plan_size(plan):
     return n
 
 
-def run_check(prop, target, tier, cfg, describe):
+def run_check(prop, target, tier, cfg, describe, extra_targets=None):
     """cfg: {count, budget_s, workers, recheck}; describe: dict with the static
-    parts of the evidence (rule, components, assumptions)."""
+    parts of the evidence (rule, components, assumptions). extra_targets: more
+    harness executables for the same property, each with its share of the
+    wall-clock budget ([{"target": name, "share": 0.3}]); the batches run one
+    after the other, each on all workers."""
     t0 = time.time()
     base = int(os.environ.get("VERIF_SEED", cfg.get("default_seed", 20260101)))
-    ok, out = buildmod.build([target])
+    extra_targets = extra_targets or []
+    shares = [(target, 1.0 - sum(e["share"] for e in extra_targets))] + [(e["target"], e["share"]) for e in extra_targets]
+    ok, out = buildmod.build([t for t, _ in shares])
     if not ok:
-        print("INFRA: build of %s failed" % target)
+        print("INFRA: build of %s failed" % ", ".join(t for t, _ in shares))
         return 2
     t_build = time.time() - t0
-    exe = os.path.join(BIN, target)
-    pool = Pool(prop.lower() + "-" + tier + "-" + str(os.getpid()), exe, tier, base, cfg["count"], cfg["workers"], cfg["budget_s"],
-                samples=3, recheck=cfg.get("recheck", 100))
-    ws = pool.run()
-    tot = merge_summaries(ws, pool)
-    distinct = count_distinct(exe, pool.hash_files)
+    pools, ws, distinct, per_harness = [], [], 0, {}
+    for tname, share in shares:
+        exe = os.path.join(BIN, tname)
+        pool = Pool(tname + "-" + tier + "-" + str(os.getpid()), exe, tier, base, cfg["count"], cfg["workers"],
+                    cfg["budget_s"] * share, samples=3 if tname == target else 2, recheck=cfg.get("recheck", 100))
+        pws = pool.run()
+        d = count_distinct(exe, pool.hash_files)
+        per_harness[tname] = {"runs": merge_summaries(pws, [pool])["runs"], "distinct_nontrivial": d,
+                              "budget_s": round(cfg["budget_s"] * share, 1)}
+        pools.append(pool)
+        ws += pws
+        distinct += d
+    tot = merge_summaries(ws, pools)
 
-    candidates, infra = [], list(pool.infra)
+    candidates, infra = [], [m for p in pools for m in p.infra]
     history_notes = []
     history_dependence = []
     for w in ws:
@@ -431,14 +443,21 @@ def run_check(prop, target, tier, cfg, describe):
                                         r["rerun"]["outcome"], r["rerun"]["hash"]))
                 if r["result"]["outcome"] == "OK":
                     continue
-            candidates.append((r["seed"], r["plan"], r["result"]))
+            candidates.append((r["seed"], r["plan"], r["result"], w.pool.exe))
         for d in w.deaths:
             if d.get("infra"):
                 continue
             seed_hex = "%016x" % d["seed"]
-            plan = gen_plan(exe, d["seed"], tier)
-            candidates.append((seed_hex, plan, classify_crash(d["rc"], d["stderr"])))
-    violations, known_hits, infra2 = process_candidates(prop, exe, tier, candidates[:12], sys.stderr)
+            plan = gen_plan(w.pool.exe, d["seed"], tier)
+            candidates.append((seed_hex, plan, classify_crash(d["rc"], d["stderr"]), w.pool.exe))
+    # every harness gets its turn among the first candidates
+    by_exe = {}
+    for c in candidates:
+        by_exe.setdefault(c[3], []).append(c)
+    picked = []
+    for lst in by_exe.values():
+        picked += lst[:max(4, 12 // len(by_exe))]
+    violations, known_hits, infra2 = process_candidates(prop, tier, picked[:14], sys.stderr)
     infra += infra2
     if tot["recheck_mismatch"] or history_notes:
         msg = ("%d in-process re-runs disagreed with the first execution (state kept from run to run)"
@@ -486,6 +505,7 @@ def run_check(prop, target, tier, cfg, describe):
             "components": describe["components"],
             "determinism": {"plans_rerun_in_worker": tot["rechecked"], "hash_mismatches": tot["recheck_mismatch"]},
             "worker_restarts": tot["restarts"],
+            "per_harness": per_harness,
             "known_findings_seen": [{"id": k.get("known_id"), "seed": k["seed"], "replay": k["replay"]} for k in known_hits],
             "violations_reported": [{"seed": v["seed"], "class": v["class"], "replay": v["replay"], "detail": v["detail"]} for v in violations],
             "infra_messages": infra,
